@@ -36,7 +36,15 @@ RULE = ("metafiles: every creator of the tool (TorrentFile, TorrentFile align, T
         "0, 1, 2 and 3 (at scale in the quick tier: 0 and one other in rotation; model tie on those below 300000 bytes) through commands.magnet; a subset also through commands.get_magnet, cli.execute and a fresh `python -m torrentfile "
         "magnet` process.  A case is distinct by (SHA-1 of the metafile bytes, version, route).  Model tie: returned string = extracted "
         "Model/Magnet.v on the file bytes; quote_plus / unquote_plus of urllib = extracted Model/Uri.v on all 256 bytes, all '%XY' triples, "
-        "(thorough: all 65536 two-byte strings) and random strings.  End to end, without the model: the URI is parsed with urllib.parse "
+        "(thorough: all 65536 two-byte strings) and random strings.  PATH ARGUMENTS: a metafile stored as P on a shelf NEXT TO other metafiles "
+        "named P + '.torrent', P + '.TORRENT' and P without its '.torrent' that describe something else ('album' next to 'album.torrent', "
+        "'data.torrent' next to 'data.torrent.torrent' and 'data', names with spaces and '&'), P spelled absolute / relative / './'-relative / "
+        "through the parent ('../shelf/P') with the shelf as working directory, through commands.magnet, get_magnet, `magnet`, the alias `m`, in "
+        "process and in a fresh interpreter: the URI must describe P.  CREATE -m: `create|new` with -m / --magnet / `magnet = true` in a "
+        "fresh interpreter, with and without --config (ini in the working directory, in ~/.torrentfile/, via --config-path), the ini's "
+        "meta-version absent / equal to / DIFFERENT from the command line's (ini 3 vs default 1, 3 vs 2, 2 vs 1, 1 vs 3 ...; thorough all 16 "
+        "pairs x 4 locations), payload name with ' & = + #': the one 'magnet:?' line create prints is judged against the FILE WRITTEN "
+        "(automatic row of the xt table, dn, tr, ws).  End to end, without the model: the URI is parsed with urllib.parse "
         "(urlsplit, strict parse_qsl) and xt must equal the table over SHA-1 / SHA-256 of the raw info span located by the reference "
         "strict decoder, dn / tr / ws must decode to exactly name / BEP 12 tracker list / BEP 19 web-seed list, no other parameter.")
 TRUSTED_BASE = [
@@ -836,7 +844,218 @@ REQUIRED = [f"{k} x version {v}" for k in ("v1", "v2", "hybrid") for v in range(
      "origin: created", "origin: edited", "origin: reference variant of a created metafile", "origin: reference encoder",
      "origin: hand-built dictionary", "route lib", "route get_magnet", "route cli", "route cli-default", "route subprocess",
      "quote: single byte", "unquote: single byte", "unquote: '%' + two bytes",
-     "v1: pieces is the empty string (zero-length files only)", "hybrid: pieces is the empty string (zero-length files only)"]
+     "v1: pieces is the empty string (zero-length files only)", "hybrid: pieces is the empty string (zero-length files only)",
+     "path: metafile next to <path>.torrent describing something else", "path: the metafile's own name ends with .torrent",
+     "path: the metafile's name has no .torrent extension", "path spelled absolute", "path spelled relative", "path route lib",
+     "path route cli m", "create -m: printed URI vs the file written", "create -m: ini meta-version differs from the command line's",
+     "create -m: ini meta-version 3, command line default 1", "create -m: ini meta-version 3, command line 2",
+     "create -m: ini meta-version 2, command line 1", "create -m: config cwd", "create -m: config home", "create -m: config config-path"]
+
+
+# ------------------------------------------------------------------------ path arguments: neighbours of the metafile; create -m
+# The metafile the URI must describe is the one the PATH ARGUMENT names.  Everything above keeps the metafile alone in a scratch
+# directory under one fixed name and an absolute path.  Here the file P sits on a shelf next to OTHER metafiles whose names are
+# extensions / truncations of its own -- P + '.torrent' ('album' next to 'album.torrent', 'data.torrent' next to
+# 'data.torrent.torrent'), P without its '.torrent', P + '.TORRENT' -- each describing something else (another name, other
+# hashes, other trackers), and P is spelled absolute, relative to the working directory, './'-relative and through the parent
+# ('../shelf/P'), for the library call, get_magnet, `magnet`, the alias `m`, in process and in a fresh interpreter.
+SIB_NAMES = ["album", "data.torrent", "set.v2.torrent", "a b&c=d", "Ubuntu.TORRENT", "x"]
+SIB_SPELLINGS = ["absolute", "relative", "dot-relative", "through the parent"]
+SIB_ROUTES = ["lib", "get_magnet", "cli magnet", "cli m", "subprocess magnet", "subprocess m"]
+
+
+def sibling_names(name):
+    out = [name + ".torrent", name + ".TORRENT"]
+    if name.lower().endswith(".torrent") and len(name) > 8:
+        out.append(name[:-8])
+    return out
+
+
+def sibling_case(tmp, n, raw, name, others, spelling, route, v):
+    """the metafile `raw` stored as shelf/<name> next to `others` [(file name, bytes)]; returns (uri, problems | None, exception | None)"""
+    d = os.path.join(tmp, f"sib{n}", "shelf")
+    os.makedirs(d)
+    for nm, r in [(name, raw)] + list(others):
+        with open(os.path.join(d, nm), "wb") as fd:
+            fd.write(r)
+    arg = {"absolute": os.path.join(d, name), "relative": name, "dot-relative": "." + os.sep + name,
+           "through the parent": os.path.join("..", "shelf", name)}[spelling]
+    cmd = route.split()[-1] if " " in route else "magnet"
+    old = os.getcwd()
+    try:
+        if route.startswith("subprocess"):
+            p = subprocess.run([core.PY, "-m", "torrentfile", cmd, arg, "--meta-version", str(v)], cwd=d,
+                               env=core.impl_env({"HOME": tmp}), capture_output=True, text=True, timeout=120)
+            if p.returncode != 0:
+                raise RuntimeError(f"exit {p.returncode}: {p.stderr[-300:]}")
+            uri = shown = printed_uri(p.stdout)
+        else:
+            os.chdir(d)
+            sink = io.StringIO()
+            with contextlib.redirect_stdout(sink), contextlib.redirect_stderr(io.StringIO()):
+                if route == "lib":
+                    from torrentfile.commands import magnet
+                    uri = magnet(arg, version=v)
+                elif route == "get_magnet":
+                    from argparse import Namespace
+                    from torrentfile.commands import get_magnet
+                    uri = get_magnet(Namespace(metafile=arg, meta_version=str(v)))
+                else:
+                    from torrentfile.cli import execute
+                    uri = execute([cmd, arg, "--meta-version", str(v)])
+            shown = printed_uri(sink.getvalue())
+    except Exception as e:  # noqa
+        return None, [("magnet-raised", "a magnet URI", f"{type(e).__name__}: {e}")], e
+    finally:
+        os.chdir(old)
+    probs = judge(raw, v, uri)
+    if probs is not None and shown != uri:
+        probs = probs + [("printed-differs-from-returned", uri, shown)]
+    return uri, probs, None
+
+
+# `create -m` / `magnet = true` prints the URI of the metafile it has just written.  Which version that file has is decided by
+# --meta-version AND, with --config, by the ini file (found in the working directory, in ~/.torrentfile/ or through --config-path),
+# whose meta-version key wins.  The printed URI must carry the hashes of the FILE WRITTEN (nobody asked for one version of the
+# magnet: the automatic row of the xt table for that file), its name, trackers and web seeds.
+CFG_LOCS = ["no config", "cwd", "home", "config-path"]
+CFG_MAGNET = ["-m", "ini magnet = true", "--magnet and ini magnet = true"]
+
+
+def config_magnet_case(tmp, n, ini_version, cli_version, locate, magnet_via, cmd):
+    """one `create` in a fresh interpreter; everything is a function of the arguments.
+       returns (description, written metafile bytes | None, printed URI | None, problems)"""
+    import random
+    sb = os.path.join(tmp, f"cm{n}")
+    wd, home, data, outdir, cfgdir = (os.path.join(sb, x) for x in ("wd", "home", "data", "out", "cfg"))
+    for x in (wd, home, data, outdir, cfgdir):
+        os.makedirs(x)
+    payload = os.path.join(data, "cfg payload &=+#")
+    rng = random.Random("c11-cfgmagnet")
+    trees.write_tree(payload, {("a b",): rng.randbytes(PL + 9), ("d", "c&d"): rng.randbytes(100), ("d", "e"): b""})
+    outfile = os.path.join(outdir, "made.torrent")
+    trackers = ["http://t.example/a?x=1&y=2", "udp://u.example:6969/b+c"]
+    seeds = ["http://w.example/s 1/x%7Ey#z"]
+    argv = [cmd, "--prog", "0", "--piece-length", "14"]
+    ini = None
+    if locate != "no config":
+        argv += ["--config"]
+        lines = ["[config]", "announce =", *["    " + t for t in trackers], "web-seed =", *["    " + s for s in seeds]]
+        if ini_version:
+            lines.append(f"meta-version = {ini_version}")
+        if magnet_via != "-m":
+            lines.append("magnet = true")
+        ini = "\n".join(lines) + "\n"
+        if locate == "config-path":
+            path = os.path.join(cfgdir, "settings.ini")
+            argv += ["--config-path", path]
+        elif locate == "cwd":
+            path = os.path.join(wd, "torrentfile.ini")
+        else:
+            path = os.path.join(home, ".torrentfile", "torrentfile.ini")
+            os.makedirs(os.path.dirname(path))
+        with open(path, "w", encoding="utf-8") as fd:
+            fd.write(ini)
+    else:
+        argv += ["--announce", *trackers, "--web-seed", *seeds]
+    if locate == "no config" or magnet_via != CFG_MAGNET[1]:
+        argv += ["-m"] if magnet_via == "-m" else ["--magnet"]
+    if cli_version:
+        argv += ["--meta-version", cli_version] if n % 2 else ["--meta-version=" + cli_version]
+    argv += ["-o", outfile, payload]
+    desc = {"kind": "create-config-magnet", "ini_version": ini_version, "cli_version": cli_version, "config file": locate,
+            "magnet_via": magnet_via, "command": cmd, "n": n, "ini": ini, "argv": [a.replace(sb, "<sandbox>") for a in argv],
+            "cwd": "<sandbox>/wd"}
+    p = subprocess.run([core.PY, "-m", "torrentfile"] + argv, cwd=wd, env=core.impl_env({"HOME": home}), capture_output=True,
+                       text=True, timeout=300)
+    raw = oracle.read(outfile) if os.path.isfile(outfile) else None
+    if p.returncode != 0 or raw is None:
+        return desc, raw, None, [("create-raised", "a metafile and its magnet URI", f"exit {p.returncode}: {p.stderr[-300:]}")]
+    uri = printed_uri(p.stdout)
+    if uri is None:
+        return desc, raw, None, [("create-printed-no-single-magnet-uri", "one line 'magnet:?...' on stdout",
+                                  [ln for ln in p.stdout.split("\n") if "magnet:" in ln])]
+    return desc, raw, uri, judge(raw, 0, uri) or []
+
+
+def path_cases(ctx, g, tmp):
+    """the two families above; failures carry everything their replay needs"""
+    quick = ctx.tier == "quick"
+    rng = g.rng
+    files = [(("a",), rng.randbytes(100)), (("d", "b"), rng.randbytes(PL + 1))]
+
+    def small(ver):
+        base = oracle.bdecode_strict(oracle.ref_metafile(g.text(lo=1, hi=3), files, PL, ver, single=False))
+        return variant(base, g)
+    k = rng.randrange(60)
+    n = 0
+    for j, name in enumerate(SIB_NAMES if not quick else SIB_NAMES[:4]):
+        ver = (3, 1, 2)[(k + j) % 3]
+        raw = small(ver)
+        exp = expected_of(raw)
+        others = []
+        for i, nm in enumerate(sibling_names(name)):
+            for _ in range(20):
+                o = small((1, 2, 3)[(k + j + i) % 3])
+                eo = expected_of(o)
+                if eo["btih"] != exp["btih"] and eo["name"] != exp["name"]:
+                    break
+            others.append((nm, o))
+        if quick:
+            combos = [(SIB_SPELLINGS[(k + j) % 4], "lib"), (SIB_SPELLINGS[(k + j + 1) % 4], SIB_ROUTES[1 + (k + j) % 3]),
+                      (SIB_SPELLINGS[(k + j + 2) % 4], SIB_ROUTES[1 + (k + j + 1) % 3])]
+            if j < 2:
+                combos.append((SIB_SPELLINGS[(k + j + 3) % 4], SIB_ROUTES[4 + (k + j) % 2]))
+        else:
+            combos = [(s, r) for s in SIB_SPELLINGS for r in SIB_ROUTES]
+        for ci, (spelling, route) in enumerate(combos):
+            versions = [0] if exp["kind"] != "hybrid" else ([0, 1 + (k + ci) % 3] if quick else [0, 1, 2, 3])
+            for v in versions:
+                if expected_xts(exp, v) is None:
+                    continue
+                n += 1
+                desc = {"kind": "magnet-path-with-siblings", "metafile_hex": raw.hex(), "file_name": name,
+                        "siblings": {nm: o.hex() for nm, o in others}, "spelling": spelling, "route": route, "version": v, "n": n}
+                ctx.case(key=(hashlib.sha1(raw).hexdigest(), v, route, "siblings", name, spelling), nontrivial=True,
+                         classes=["path: metafile next to <path>.torrent describing something else", "path spelled " + spelling,
+                                  "path route " + route, f"{exp['kind']} x version {v}"] +
+                         (["path: the metafile's own name ends with .torrent"] if name.lower().endswith(".torrent") else
+                          ["path: the metafile's name has no .torrent extension"]))
+                uri, probs, exc = sibling_case(tmp, n, raw, name, others, spelling, route, v)
+                if probs:
+                    # which file does the URI describe instead?
+                    told = [nm for nm, o in others if uri and not judge(o, v, uri)]
+                    ctx.fail("path-" + probs[0][0], desc, {p[0]: show(p[1]) for p in probs},
+                             {"uri": uri, **{p[0]: show(p[2]) for p in probs},
+                              "the URI describes the neighbour": told or None},
+                             detail=f"shelf: {name!r} (the argument) next to {[nm for nm, _ in others]}")
+    # ------------------------------------------------------------ create -m / magnet = true
+    VERS = [None, "1", "2", "3"]
+    if quick:
+        combos = [("3", None), ("3", "2"), ("2", "1"), ("1", "3"), ("3", "2"), ("2", "1"), ("3", None), ("2", None), (None, "3"),
+                  ("1", "2"), (None, "2")]
+        ccases = [(iv, cv, "no config" if iv is None and i % 2 else CFG_LOCS[1 + (k + i) % 3], CFG_MAGNET[(k + i) % 3],
+                   ("create", "new")[(k + i) % 2]) for i, (iv, cv) in enumerate(combos)]
+    else:
+        ccases = [(iv, cv, loc, CFG_MAGNET[(i + j + m) % 3], ("create", "new")[(i + j) % 2])
+                  for i, iv in enumerate(VERS) for j, cv in enumerate(VERS) for m, loc in enumerate(CFG_LOCS)
+                  if not (loc == "no config" and iv is not None)]
+    from concurrent.futures import ThreadPoolExecutor
+    with ThreadPoolExecutor(max_workers=6) as ex:          # fresh interpreters on sandboxes of their own
+        results = list(ex.map(lambda c: config_magnet_case(tmp, c[0], *c[1]), enumerate(ccases)))
+    for (iv, cv, loc, via, cmd), (desc, raw, uri, probs) in zip(ccases, results):
+        kind = expected_of(raw)["kind"] if raw else "?"
+        differ = loc != "no config" and iv is not None and iv != (cv or "1")
+        ctx.case(key=("create-m", iv, cv, loc, via, cmd), nontrivial=True,
+                 classes=["create -m: printed URI vs the file written", "create -m: config " + loc, "create -m: magnet asked by " + via,
+                          f"create -m: file written is {kind}",
+                          "create -m: ini meta-version " + ("differs from the command line's" if differ else
+                                                            "absent" if iv is None else "equals the command line's")] +
+                 ([f"create -m: ini meta-version {iv}, command line {cv or 'default 1'}"] if differ else []))
+        if probs:
+            ctx.fail("create-m-" + probs[0][0], dict(desc, metafile_written_hex=raw.hex() if raw else None),
+                     {p[0]: show(p[1]) for p in probs}, {"uri": uri, **{p[0]: show(p[2]) for p in probs}},
+                     detail=f"file written: {kind}; the URI create prints must be the automatic magnet of that file")
 
 
 # ----------------------------------------------------------------------------------------------------- the run
@@ -1001,6 +1220,7 @@ def run(ctx, model_ok):
                         else:
                             ctx.fail(kind, desc, {p[0]: show(p[1]) for p in probs}, {"uri": uri, **{p[0]: show(p[2]) for p in probs}},
                                      detail=f"metafile: {raw[:1500]!r}")
+        path_cases(ctx, g, tmp)
         if model_ok:
             outs = modelrun.run("magnet", [(h, str(v)) for h, v, _, _ in model_cases])
             if outs is None:
@@ -1026,7 +1246,37 @@ def run(ctx, model_ok):
 # ------------------------------------------------------------------------------------------------------ replay
 def _replay_item(item, tmp):
     bad = 0
-    if "metafile_hex" in item:
+    if item.get("kind") == "magnet-path-with-siblings":
+        raw = bytes.fromhex(item["metafile_hex"])
+        others = [(nm, bytes.fromhex(h)) for nm, h in item["siblings"].items()]
+        v = int(item["version"])
+        print(f"shelf: {item['file_name']!r} = {raw[:600]!r}")
+        for nm, o in others:
+            print(f"       {nm!r} = {o[:600]!r}")
+        print(f"argument spelled {item['spelling']}, route {item['route']}, version request {v}")
+        uri, probs, exc = sibling_case(tmp, "r%d" % item.get("n", 0), raw, item["file_name"], others, item["spelling"], item["route"], v)
+        print("tool:  ", uri if exc is None else f"raised {type(exc).__name__}: {exc}")
+        exp = expected_of(raw)
+        print(f"property: kind={exp['kind']} xt={expected_xts(exp, v)} dn={exp['name']!r} tr={exp['tr']!r} ws={exp['ws']!r}")
+        for k, a, b in probs or []:
+            print(f"verdict: VIOLATION {k}: expected {a!r} observed {b!r}")
+            bad = 1
+        if not probs:
+            print("verdict: the property holds on this input")
+    elif item.get("kind") == "create-config-magnet":
+        desc, raw, uri, probs = config_magnet_case(tmp, item.get("n", 0), item["ini_version"], item["cli_version"], item["config file"],
+                                                   item["magnet_via"], item["command"])
+        print("argv:", desc["argv"], "\nini:", desc["ini"])
+        print("create printed:", uri)
+        if raw:
+            exp = expected_of(raw)
+            print(f"file written: kind={exp['kind']} xt={expected_xts(exp, 0)} dn={exp['name']!r} tr={exp['tr']!r} ws={exp['ws']!r}")
+        for k, a, b in probs or []:
+            print(f"verdict: VIOLATION {k}: expected {a!r} observed {b!r}")
+            bad = 1
+        if not probs:
+            print("verdict: the property holds on this input")
+    elif "metafile_hex" in item:
         raw = bytes.fromhex(item["metafile_hex"])
         v = int(item.get("version", 0))
         route = item.get("route", "lib")
